@@ -19,7 +19,7 @@ TRUSTED = [
     "Coq 8.16.1 kernel (coqc, full .vo build; coqchk in the thorough tier); no native_compute",
     "axioms: none (Print Assumptions under every property theorem must say 'Closed under the global context')",
     "extraction: ExtrOcamlBasic + ExtrOcamlString only (bool, option, unit, list, prod, sumbool -> OCaml; ascii -> char, string -> char list); N, Z, positive, nat stay inductive; OCaml 4.13.1",
-    "OCaml driver (driver/driver.ml: case file reading, hex/UTF-8 coding, comparison, direct oracles)",
+    "OCaml driver (driver/driver.ml: case file reading, hex/UTF-8 coding, comparison, direct oracles); cross-checked on a sample of every run by evaluating the model inside Coq (tools/vmcheck.py, vm_compute, no extraction)",
     "Go harness (harness/: generators, execution of the real lexer/parser/emitter/FormatText with recover and watchdog)",
     "tools/gen_tables.py (regex scraping of Go literals into coq/Tables.v)",
     "hand-written Gallina model of lexer/parser/formattext/emitter, tied to /repo by exact differential execution on the generated cases of this run",
@@ -261,6 +261,16 @@ def main_check(tier, prop):
         write_evidence(prop, tier, seed, 'proof', {'obligations': max(1, len(thms)), 'discharged': 0, 'checker_cmd': 'build/driver', 'trusted_base': TRUSTED, 'explanation': 'driver failed'}, time.time() - t0, 1, [])
         return 1
 
+    # ---- 3b. the same comparison INSIDE Coq on a sample (vm_compute over coq/Compile.v: no extraction, no OCaml driver) ----
+    vm = None
+    if not coq_broken and os.path.exists(os.path.join(ROOT, 'tools', 'vmcheck.py')):
+        try:
+            r = sh([sys.executable, os.path.join(ROOT, 'tools', 'vmcheck.py'), prop, tier, {'quick': '25', 'thorough': '300'}[tier]], timeout=3000)
+            m = re.search(r'VMCHECK cases=(\d+) agree=(\d+)', r.stdout)
+            vm = {'cases': int(m.group(1)), 'agree': int(m.group(2)), 'detail': r.stdout[-1500:] if m.group(1) != m.group(2) else ''} if m else {'cases': 0, 'agree': 0, 'detail': r.stdout[-800:]}
+        except Exception as e:
+            vm = {'cases': 0, 'agree': 0, 'detail': 'vmcheck did not run: %s' % e}
+
     # ---- 4. verdict ----
     opens = known_findings()
     reported = 0
@@ -290,6 +300,11 @@ def main_check(tier, prop):
         viol = 1
         violation(prop, {'property': prop, 'broken': 'proof obligation no longer checks (coq build failed)', 'obligation': broken_obligation,
                          'note': 'the correspondence and the oracles found no failing input on this run'}, 'obligation', nofail=True)
+    if vm and vm['cases'] != vm['agree'] and not viol:
+        # the extracted model agreed with the implementation on every case, the model evaluated inside Coq does not: extraction / driver glue
+        viol = 1
+        violation(prop, {'property': prop, 'broken': 'the model evaluated inside Coq (vm_compute) disagrees with the implementation although the extracted model agrees: extraction or driver glue',
+                         'detail': vm['detail']}, 'vmcheck', nofail=True)
     if summary.get('validator_rejects') and not viol:
         viol = 1
         idx, nm, detail = summary['validator_rejects'][0]
@@ -340,6 +355,8 @@ def main_check(tier, prop):
         'mismatches': len(mism), 'oracle_failures': len(fails), 'known_findings_matched': len(known_printed),
         'exhaustive': False,
     }
+    if vm is not None:
+        coverage['in_coq_correspondence'] = {'cases': vm['cases'], 'agree': vm['agree'], 'how': 'tools/vmcheck.py: Compile.compile evaluated by vm_compute inside Coq on a sample of this run\'s cases (ASCII sources without format()), compared with the implementation\'s recorded result; no extraction, no OCaml driver'}
     if coqchk is not None:
         coverage['coqchk'] = coqchk
     write_evidence(prop, tier, seed, 'proof', coverage, time.time() - t0, viol,
